@@ -108,21 +108,28 @@ func vh_IS() {
 		vAssert(vAnd(r.lastIncludedIndex == pre.lastIncludedIndex, vAnd(n.log.entries[0].Index == pre.firstIndex, len(n.log.entries) == pre.logLen)), "C14.snapshot-visible-before-boundary-and-log-change")
 	}
 	restoredThrough := uint64(0)
+	stopDuringRestore := vNondetBool("stop-during-restore")
 	n.fsm.onRest = func() {
 		vAssert(!vHeld(&r.mu), "C20.lock-released-around-restore")
 		restoredThrough = n.fsm.through
+		if stopDuringRestore {
+			// the application stops the node while the state machine is being restored (lock released)
+			vTag("stop-during-restore", "yes")
+			r.Stop()
+		}
 	}
 
 	resp := &InstallSnapshotResponse{}
 	err := r.InstallSnapshot(req, resp)
 	vDrain()
-	post := vSnapshotNode(n)
 	vAssert(!vHeld(&r.mu), "C18|C20.lock-released")
 	vAssert(err == nil, "C18.is-total")
-	if post.state == Shutdown {
+	if r.state == Shutdown {
+		// stopped while waiting or while restoring: the handler returned without aborting the process
 		vCover("shutdown-during-install")
 		return
 	}
+	post := vSnapshotNode(n)
 	// ---- term rules (C08/C02/C16)
 	vAssert(post.term >= pre.term, "C08.termMono")
 	vAssert(vAnd(resp.Term >= pre.term, resp.Term <= post.durTerm), "C08.reply-term-bounded")
